@@ -95,6 +95,16 @@ def run(ctx, F):
     S = sym.Sym(prog, inline_depth=2, max_depth=25)
     table = json.load(open(TABLE))
     reviewed = {r["key"]: r["reason"] for r in table["reviewed"]}
+    # a reviewed site inside a closure may also be met in the enclosing function after a rewrite (closure
+    # replaced by a match arm): rows whose operands do not mention captured variables are also indexed by
+    # their key with `::{closure}` dropped, when that is unambiguous
+    reviewed_folded = {}
+    for k in reviewed:
+        fnp, _, dsc = k.partition("|")
+        if "{closure}" in fnp and "param #" not in dsc:
+            fk = re.sub(r"(::\{closure\})+", "", fnp) + "|" + dsc
+            reviewed_folded[fk] = None if fk in reviewed_folded or fk in reviewed else k
+    reviewed_folded = {a: b_ for a, b_ in reviewed_folded.items() if b_}
     roots = entry_points(prog, ctx)
     seen_all = reach(prog, roots)
     seen_nostatic = reach(prog, roots, skip_reasons=("static-ref",))
@@ -137,10 +147,12 @@ def run(ctx, F):
                 ctx.count("reviewed")
                 continue
             fk = _folded_key(prog, b, d, descr)
+            if fk not in reviewed and fk in reviewed_folded:
+                fk = reviewed_folded[fk]
             if fk != key and fk in reviewed:
                 # the reviewed operation was moved into a closure of the same function (captured operands are
                 # named by the place they capture): same function, same operation, same operands
-                ctx.reviewed("F1-panic", fk, reviewed[fk] + " (site now inside a closure of the reviewed function)")
+                ctx.reviewed("F1-panic", fk, reviewed[fk] + " (same operation and operands; the site moved between the reviewed function and one of its closures)")
                 ctx.count("reviewed")
                 continue
             path = prog.path_to(seen_nostatic, d)
